@@ -110,6 +110,9 @@ func loadProg(dir string) (*Prog, error) {
 			// wrappers/thunks/bound methods: keep those whose underlying object is ours for call resolution only
 			continue
 		}
+		if strings.HasPrefix(fn.Synthetic, "instantiation wrapper") {
+			continue // forwarding thunk of a generic function: calls are attributed to the generic itself
+		}
 		if p.inTree(fn) {
 			p.allFns[fn] = true
 			p.Funcs = append(p.Funcs, fn)
@@ -136,6 +139,11 @@ func loadProg(dir string) (*Prog, error) {
 				if ci, ok := in.(ssa.CallInstruction); ok {
 					if cal := staticCallee(ci); cal != nil {
 						p.callers[cal] = append(p.callers[cal], ci)
+						if strings.HasPrefix(cal.Synthetic, "instantiation wrapper") {
+							if u := p.unbound(cal); u != cal {
+								p.callers[u] = append(p.callers[u], ci)
+							}
+						}
 					}
 				}
 				if mc, ok := in.(*ssa.MakeClosure); ok {
